@@ -21,6 +21,7 @@ macro_rules! dispatch {
         match $id {
             "C01" => $f::<props::c01::C01>($($a),*),
             "C03" => $f::<props::c03::C03>($($a),*),
+            "C04" => $f::<props::c04::C04>($($a),*),
             "C05" => $f::<props::c05::C05>($($a),*),
             "C14" => $f::<props::c14::C14>($($a),*),
             other => {
